@@ -91,11 +91,33 @@ def record(family, out, profile="release", timeout=1200, **kw):
         os.remove(out + ".hang.json")
     p = sh(args, timeout=timeout, check=False)
     if p.returncode == 7 and os.path.exists(out + ".hang.json"):
+        _drop_partial_last_line(out)
         return out          # the watchdog saw a call that did not return: the caller reports it
     if p.returncode != 0:
         # the harness catches panics of the code under test; a crash of the harness itself is a tool error
         raise ToolError("harness record %s failed (%d): %s" % (family, p.returncode, p.stdout[-3000:]))
     return out
+
+
+def _drop_partial_last_line(path):
+    """After the watchdog killed the harness the trace may end in an unflushed, partial line (or be empty)."""
+    if not os.path.exists(path):
+        open(path, "w").close()
+    with open(path, "rb") as f:
+        data = f.read()
+    lines = data.split(b"\n")
+    good = []
+    for ln in lines:
+        if not ln.strip():
+            continue
+        try:
+            json.loads(ln)
+            good.append(ln)
+        except Exception:
+            break
+    with open(path, "wb") as f:
+        for ln in good:
+            f.write(ln + b"\n")
 
 
 def hang_violation(chk, trace_path, what):
@@ -116,6 +138,7 @@ def replay_vectors(family, inp, out, profile="release", timeout=1200, **kw):
         os.remove(out + ".hang.json")
     p = sh(args, timeout=timeout, check=False)
     if p.returncode == 7 and os.path.exists(out + ".hang.json"):
+        _drop_partial_last_line(out)
         return out
     if p.returncode != 0:
         raise ToolError("harness replay %s failed (%d): %s" % (family, p.returncode, p.stdout[-3000:]))
@@ -301,6 +324,8 @@ def tv(module, cfg, trace_path, reset_events=(), shards=10, max_rejects=8, tag=N
             else:
                 sess_len[-1] += 1
     if not sess_len:
+        if os.path.exists(trace_path + ".hang.json"):
+            return {"events": 0, "sessions": 0, "states": 0, "rejects": [], "lines": LazyLines([trace_path])}
         raise ToolError("empty trace " + trace_path)
     total = sum(sess_len)
     nsh = max(1, min(shards, len(sess_len)))
